@@ -19,6 +19,12 @@ Proof.
 Qed.
 Print Assumptions C02_message.
 
+(** the checker that judges the message of every hand-off of the IMPLEMENTATION in the correspondence runs accepts the model *)
+Theorem C02_message_checker_sound : forall fuel o dc r trace msg sz seen r',
+  rstate_ok r -> data_loop fuel o dc r trace = (D_eod msg sz seen, r') -> handoff_msg_ok seen msg = true.
+Proof. exact handoff_msg_sound. Qed.
+Print Assumptions C02_message_checker_sound.
+
 (** Envelope: F<sender> NUL, one T<recipient> NUL per recipient accepted since that MAIL FROM (not withdrawn), in the
     order of acceptance, and a final NUL; a recipient at an address literal is written with control/localiphost. *)
 Theorem C02_envelope : forall o chunks pre env msg post,
